@@ -852,7 +852,7 @@ func evalActionDelete(node *ActionExpression, env *Environment) Object {
 		}
 
 		if obj == UNDEFINED {
-			env.Set(id.Value, val)
+			// deleting from a missing attribute is a no-op
 			return obj
 		}
 
